@@ -218,7 +218,9 @@ impl Scope {
                             //         read_number_of_ext_fields
                             //     )));
                         }
-                        let range = bits.pos()..bits.pos() + *number_of_ext_fields;
+                        // only as many presence bits as the sender announced are on the wire
+                        let range = bits.pos()
+                            ..bits.pos() + read_number_of_ext_fields.min(*number_of_ext_fields);
                         bits.set_pos(range.start + read_number_of_ext_fields); // skip bit-field
                         *self = Scope::AllBitField(range);
                     } else {
